@@ -5,13 +5,16 @@ import pv, _ctx
 PROP = 'C15'
 LEAN_MODULE = 'ParsecVerif.Props.C15'
 DRIVERS = ['pv_CTX', 'pv_Runtime']
-THEOREMS = ['ParsecVerif.Compound.gi_cstep', 'ParsecVerif.C15.C15_order', 'ParsecVerif.C15.C15_assert_holds', 'ParsecVerif.C15.C15_once',
-            'ParsecVerif.C15.C15_completes_after_last', 'ParsecVerif.C15.C15_buggy_not_after_last', 'ParsecVerif.C15.C15_compose_array',
-            'ParsecVerif.C15.C15_context_theorems_apply']
+THEOREMS = ['ParsecVerif.Compound.gi_cstep', 'ParsecVerif.C15.C15_inorder', 'ParsecVerif.C15.C15_root_after_leaves', 'ParsecVerif.C15.subtree_bounds',
+            'ParsecVerif.C15.C15_order_members', 'ParsecVerif.C15.C15_assert_holds', 'ParsecVerif.C15.C15_once',
+            'ParsecVerif.C15.C15_completes_after_last', 'ParsecVerif.C15.C15_buggy_not_after_last',
+            'ParsecVerif.C15.C15_compose_cases', 'ParsecVerif.C15.C15_compose_inorder', 'ParsecVerif.C15.C15_tree_inorder', 'ParsecVerif.C15.C15_hcompose',
+            'ParsecVerif.C15.C15_compose_array', 'ParsecVerif.C15.C15_context_theorems_apply']
 IMPL = 'parsec/compound.c (parsec_compose, parsec_compound_taskpool_startup, parsec_composed_taskpool_cb), parsec/scheduling.c (parsec_context_add_taskpool)'
 ENGINE = 'lean-trace'
 LEVEL = 'proof'
-LEVEL_TEXT = ('Lean 4 theorems about EVERY run of the compound machine built on the context machine of C06 (any number of compounds of any size n >= 1 in one context, any number of '
+LEVEL_TEXT = ('COMPOSITION TREES: parsec_compose is modelled over all four argument-kind cases exactly as coded (C15_compose_cases: a compound start gets next appended as ONE member, plain or compound; a plain start yields a new compound [start, next]); for every composition expression the leaf sequence of the built object is the in-order sequence (C15_tree_inorder); the machine runs composition FORESTS (a member may be the object of another compound; its termination is detected nested in the callback of its last member and notifies its parent, to any depth — per-thread stack of nested callbacks): for every object n and leaves a before b in the in-order of its subtree, every task of a has ended before the first task of b starts (C15_inorder), every subtree runs inside the [add, callback] interval of its root (subtree_bounds), and every compound completes exactly once, after every task of every leaf of its subtree (C15_root_after_leaves). '
+              'Lean 4 theorems about EVERY run of the compound machine built on the context machine of C06 (any number of compounds of any size n >= 1 in one context, any number of '
               'threads and other taskpools, every interleaving; the compound object is a taskpool without tasks whose detector is armed by its startup hook, the release of its last pending '
               'action by the callback of tp[n-1] detects its termination and runs its callback and decrement nested in that callback): for i < j every task end of tp[i] precedes every task '
               'start of tp[j] (C15_order); the member whose termination is detected is always array[completed], i.e. the assert of parsec_composed_taskpool_cb cannot fail, and tp[i+1] is '
@@ -22,7 +25,7 @@ LEVEL_TEXT = ('Lean 4 theorems about EVERY run of the compound machine built on 
               'Tie: compositions of 2-20 generated PTG taskpools (3 JDF shapes) inside randomised multi-epoch histories on the real runtime (compounds added by the master, by task bodies and by '
               'completion callbacks, with injected preemptions), all schedulers, 1-8 threads; the event sequence incl. every RMW of active_taskpools and of the compound\'s nb_pending_actions must be '
               'accepted by the compiled Lean machine; independent stamp oracle.')
-LEVEL_NOTE = ('Theorems are about the model, tied to the code by trace acceptance on sampled runs. Nested compounds (a compound as member of another) are not modelled nor generated. '
+LEVEL_NOTE = ('Theorems are about the model, tied to the code by trace acceptance on sampled runs. '
               'Compositions of one taskpool are the taskpool itself (parsec_compose(tp, NULL) = tp, checked on the real code). Safety statements; liveness is not claimed.')
 TECHNIQUE = 'Lean 4 proof (restriction of the context machine, inductive invariant on the chain of members, stamps as ghost state) + trace acceptor on real runs + stamp oracle'
 ASSUMPTIONS = ['members of compounds are distinct PTG taskpools without user completion callback (asserted by the code); no nested compounds',
